@@ -59,7 +59,7 @@ Plan cal_gen(const std::string &check, const std::string &tier, uint64_t seed, l
 	int n = (int)rng.range(1, 3);
 	o.i.assign(16, 0);
 	o.i[15] = task;
-	o.i[0] = rng.chance(0.4) ? -1 : (long)rng.below(6);
+	o.i[0] = rng.chance(0.4) ? -1 : (long)rng.below(8);
 	o.i[2] = rng.chance(0.2);
 	o.i[3] = rng.chance(0.7) ? 0 : 2;
 	o.i[4] = o.k == "vp_set" && rng.chance(0.1) ? 1 : 0;
@@ -112,7 +112,7 @@ Plan cal_gen(const std::string &check, const std::string &tier, uint64_t seed, l
 	S.ab = rng.chance(0.4);
 	S.fmin = gfmin * (1 + 0.2 * rng.uni()); S.fmax = S.fmin + (gfmax - gfmin) * (0.3 + 0.6 * rng.uni());
 	S.todo.clear(); S.next = 0; S.applies = 0; S.has_unknown = false; S.poison_ref = -1; S.fv_late = (c10 || c16) && rng.chance(0.2); S.fv_done = !S.fv_late;
-	S.name = (int)rng.below(6);
+	S.name = (int)rng.below(8);
 	// a VNA that drives (or detects) on one of its two ports only
 	S.rect = S.P == 2 && cls != W16 && !c12 && rng.chance(c10 ? 0.05 : 0.15);
 	bool need_full = cls != W8 || S.rect;
@@ -194,7 +194,9 @@ Plan cal_gen(const std::string &check, const std::string &tier, uint64_t seed, l
 	    else {
 		int q = p % P + 1;
 		long l11 = mkscalar(0.1 * rng.uni(), 0.1 * rng.uni(), S.sid), l21 = mkscalar(0.5 + 0.3 * rng.uni(), -0.3 * rng.uni(), S.sid), l22 = mkscalar(-0.1 * rng.uni(), 0.05, S.sid);
-		S.todo.push_back(GStd{3, shape(), (int)rng.below(2), p, q, {l11, l21, l21, l22}, 1.0});
+		// (now and then non-reciprocal, one transmission being exactly zero: an isolator)
+		double iso = rng.uni();
+		S.todo.push_back(GStd{3, shape(), (int)rng.below(2), p, q, {l11, iso < 0.15 ? -1 : l21, iso >= 0.15 && iso < 0.3 ? -1 : l21, l22}, 1.0});
 	    }
 	}
 	// frequency dependent standards (interpolated parameters)
@@ -299,6 +301,7 @@ Plan cal_gen(const std::string &check, const std::string &tier, uint64_t seed, l
 		    }
 		    continue;
 		}
+		if (!c12 && S.fv_done && rng.chance(0.15)) plan.ops.push_back(g.mk("merror", {S.sid, (long)rng.below(4), (long)rng.below(2)}, S.sid));
 		Op so = g.mk("solve", {S.sid}, S.sid);
 		if (faults && rng.chance(0.3)) { Fault f; f.t = "alloc.vna"; f.n = rng.range(1, 80); so.f.push_back(f); plan.ops.push_back(so); so.f.clear(); }
 		plan.ops.push_back(so);
@@ -331,7 +334,18 @@ Plan cal_gen(const std::string &check, const std::string &tier, uint64_t seed, l
 	    // parameter churner: forces slot reuse in the parameter table
 	    double u = rng.uni();
 	    int task = nsess;
-	    if (u < 0.3) mkscalar(2 * rng.uni() - 1, 2 * rng.uni() - 1, task);
+	    if (u < 0.05 && c16) {
+		// an unknown parameter that refers to (holds) a scalar with a lower handle; the scalar is deleted
+		// first and stays alive through the unknown, then the unknown goes and takes it along; after
+		// that new parameters have to find both free slots again
+		long v = mkscalar(0.8, 0.05, task);	// (near the unknown's value, should a reference resolve to it after a reload)
+		Op mu = g.mk("mkunknown", {v}, task); mu.d = {0.85, 0.0}; plan.ops.push_back(mu);
+		long un = g.nparams++;
+		plan.ops.push_back(g.mk("delparam", {v}, task));
+		plan.ops.push_back(g.mk("delparam", {un}, task));
+		for (int q = (int)rng.range(2, 6); q > 0; --q) mkscalar(2 * rng.uni() - 1, 2 * rng.uni() - 1, task);
+	    }
+	    else if (u < 0.3) mkscalar(2 * rng.uni() - 1, 2 * rng.uni() - 1, task);
 	    else if (u < 0.45) mkvector((int)rng.pick(std::vector<long>{1, 2, 3, 5, 8, 16}), (int)rng.below(4), gfmin * (0.3 + 0.6 * rng.uni()), gfmax * (1.1 + rng.uni()), task);
 	    else if (u < 0.7 && g.nparams > 3) plan.ops.push_back(g.mk("delparam", {rng.chance(0.85) ? (long)rng.range(3, g.nparams - 1) : -(long)rng.range(1, 3)}, task));
 	    else if (g.nparams > 0) {
@@ -369,10 +383,10 @@ Plan cal_gen(const std::string &check, const std::string &tier, uint64_t seed, l
 		}
 	    }
 	    if (u < 0.3) plan.ops.push_back(g.mk("query", {0}, task));
-	    else if (u < 0.45) plan.ops.push_back(g.mk("delcal", {(long)rng.below(6), (long)rng.range(-1, 8)}, task));
-	    else if (u < 0.6) plan.ops.push_back(g.mk("apply", {(long)rng.below(6), (long)rng.below(1000000), (long)rng.below(3), 0, 0}, task));
+	    else if (u < 0.45) plan.ops.push_back(g.mk("delcal", {(long)rng.below(8), (long)rng.range(-1, 8)}, task));
+	    else if (u < 0.6) plan.ops.push_back(g.mk("apply", {(long)rng.below(8), (long)rng.below(1000000), (long)rng.below(3), 0, 0}, task));
 	    else {
-		Op o = g.mk(rng.chance(0.7) ? "pset" : "pget", {rng.chance(0.4) ? -1 : (long)rng.below(6)}, task);
+		Op o = g.mk(rng.chance(0.7) ? "pset" : "pget", {rng.chance(0.4) ? -1 : (long)rng.below(8)}, task);
 		o.s = {rng.pick(std::vector<std::string>{"k", "note", "x1", "owner"}), strf("v%ld", (long)rng.below(1000))};
 		plan.ops.push_back(o);
 	    }
